@@ -47,6 +47,7 @@ RAWS = [
     ("int", 0), ("int", 1), ("int", 5), ("int", -3), ("float", 2.5), ("float", -0.0), ("float", 1e300), ("bool", True), ("bool", False),
     ("str", "5"), ("str", "2.5"), ("str", "-7"), ("str", "1e3"), ("str", " 7 "), ("str", "abc"), ("str", "true"), ("str", "FALSE"), ("str", "False"),
     ("str", "0"), ("str", "1"), ("str", "2"), ("str", ""), ("str", "Float"), ("str", "Integer"), ("str", "float"),
+    ("str", "inf"), ("str", "-Infinity"), ("str", "nan"), ("str", "1e999"), ("str", "1_0"), ("str", "0x10"), ("str", "1.5.2"),
     ("str", "nf_fin"), ("str", "fz_fin"), ("str", "nf_un"), ("str", "fz_un"), ("str", "ech_fin"), ("str", "ech_un"), ("str", "noout_un"), ("str", "nosuch"),
     ("str", "rel/a.csv"), ("str", "exists.csv"), ("str", "ABS/exists.csv"), ("str", "ABS/missing.csv"),
     ("list", []), ("list", [("int", 1), ("str", "2.5")]), ("list", [("str", "a"), ("str", "b")]), ("list", [("str", "nf_fin"), ("str", "nf_un")]),
@@ -70,6 +71,8 @@ def cases(tier):
             yield (ci, wd, tier)
     for ci in _RESULT_CONFIGS():
         yield ("cross", ci, tier)
+    for ci in range(len(CONFIGS)):
+        yield ("wdhist", ci, tier)
 
 
 def _RESULT_CONFIGS():
@@ -121,7 +124,10 @@ def _context(wdname):
     base = snapshot.scratch_dir("c20_")
     open(os.path.join(base, "exists.csv"), "w").write("A\n1\n")
     C.TABLE["arr"] = lambda: numpy.ma.MaskedArray([1.0, 2.0])
-    wd = {"none": None, "abs": base, "rel": os.path.relpath(base)}[wdname]
+    if wdname == "abs2":
+        os.makedirs(os.path.join(base, "second"), exist_ok=True)
+        open(os.path.join(base, "second", "exists.csv"), "w").write("A\n2\n")
+    wd = {"none": None, "abs": base, "rel": os.path.relpath(base), "abs2": os.path.join(base, "second")}[wdname]
     p = Program(libraries=LIBS, working_dir=wd)
     lib = p.command_library
     _SPEC["lib"] = lib
@@ -262,9 +268,46 @@ def _run_cross(case):
             "outcomes": {"cross:%s" % ("ok" if not viols else "bad"): 1}, "sample": {"second_parameter": repr(cfgB), "histories": states}}
 
 
+def _run_wdhist(case):
+    """the same parameter object used by programs with DIFFERENT working directories (parameter objects live on the command classes and are
+    shared by every program of the process): clean(a) under wd1 then clean(b) under wd2 must equal clean(b) under wd2 on a fresh object"""
+    _, ci, tier = case
+    cfg = CONFIGS[ci]
+    kind = cfg[0]
+    ctxs = {w: _context(w) for w in ("none", "abs", "rel", "abs2")}
+    raws = [i for i, r in enumerate(RAWS) if r[0] in ("str", "int", "float", "bool", "none") or (r[0] == "list" and len(r[1]) <= 2)]
+    if not (isinstance(kind, tuple) and kind[0] == "Path"):
+        raws = raws[::3]
+    viols = []
+    states = transitions = 0
+    fresh = {}
+    for w, (p, ctx, base) in ctxs.items():
+        for b in raws:
+            fresh[(w, b)] = _fz(_clean(_make_param(cfg), _mk(RAWS[b], p, ctxs["abs"][2]), p))
+    for w1 in ctxs:
+        for w2 in ctxs:
+            if w1 == w2:
+                continue
+            p1, p2 = ctxs[w1][0], ctxs[w2][0]
+            for a in raws:
+                for b in ([a] if not (isinstance(kind, tuple) and kind[0] == "Path") else raws):
+                    param = _make_param(cfg)
+                    _clean(param, _mk(RAWS[a], p1, ctxs["abs"][2]), p1)
+                    rb = _fz(_clean(param, _mk(RAWS[b], p2, ctxs["abs"][2]), p2))
+                    states += 1
+                    transitions += 2
+                    if rb != fresh[(w2, b)]:
+                        viols.append(V("C20:%s:depends-on-earlier-program" % cfg[1], "%s: clean(%r) under working dir %s after clean(%r) under %s gave %r, fresh object %r" % (
+                            cfg[1], RAWS[b], w2, RAWS[a], w1, rb, fresh[(w2, b)]), history=[w1, repr(RAWS[a]), w2, repr(RAWS[b])]))
+    return {"evals": transitions, "nontrivial": states, "judged": states, "viols": viols[:40], "states": states, "transitions": transitions,
+            "outcomes": {"wdhist:%s" % ("ok" if not viols else "bad"): 1}, "sample": {"parameter": repr(cfg), "histories": states}}
+
+
 def run(case):
     if case[0] == "cross":
         return _run_cross(tuple(case))
+    if case[0] == "wdhist":
+        return _run_wdhist(tuple(case))
     ci, wdname, tier = case
     cfg = CONFIGS[ci]
     kind = cfg[0]
